@@ -443,10 +443,12 @@ func replayMain(t *testing.T, sc *Scenario, path string) {
 	if tier == "" {
 		tier = "quick"
 	}
+	core.TraceOut = os.Stdout
 	res := runOne(t, sc, core.ReplayTape(rf.Tape), tier)
+	core.TraceOut = nil
 	got := firstKey(res)
-	for _, l := range res.Trace {
-		fmt.Println(l)
+	if b, err := json.Marshal(res.Info.Sample); err == nil {
+		fmt.Printf("CASE: %s\n", b)
 	}
 	if res.Aborted != "" {
 		fmt.Printf("HARNESS-ERROR replay aborted: %s\n", res.Aborted)
